@@ -237,6 +237,44 @@ func loadCase(path string, c interface{}) error {
 	return json.Unmarshal(b, c)
 }
 
+var (
+	histOnce sync.Once
+	histF    *os.File
+)
+
+// historyFile is the case log of history mode (nil when the mode is off).
+func historyFile() *os.File {
+	histOnce.Do(func() {
+		if hp := os.Getenv("VERIF_HISTORY"); hp != "" {
+			histF, _ = os.OpenFile(hp, os.O_CREATE|os.O_WRONLY|os.O_APPEND, 0o644)
+		}
+	})
+	return histF
+}
+
+// histLog appends a case that is about to run to the history (exhaustive sub-tiers call it too).
+func histLog(c interface{}) {
+	if f := historyFile(); f != nil {
+		b, _ := json.Marshal(c)
+		f.Write(append(b, '\n'))
+	}
+}
+
+// loadHistory reads a replay file of the form {"history": [case, case, ...]}.
+func loadHistory(path string) ([]json.RawMessage, bool) {
+	b, err := os.ReadFile(path)
+	if err != nil {
+		return nil, false
+	}
+	var w struct {
+		History []json.RawMessage `json:"history"`
+	}
+	if json.Unmarshal(b, &w) != nil || len(w.History) == 0 {
+		return nil, false
+	}
+	return w.History, true
+}
+
 // ---------------------------------------------------------------------------
 // the common runner
 
@@ -256,6 +294,23 @@ func runPropCrashy[C any](t *testing.T, id string, gen func(*rapid.T) C, check f
 
 func runPropOpt[C any](t *testing.T, id string, gen func(*rapid.T) C, check func(C) Verdict, crashy bool) {
 	if p := os.Getenv("VERIF_REPLAY"); p != "" {
+		if hist, isHist := loadHistory(p); isHist {
+			// a history: the cases are executed in order in this one process (failures that need
+			// something an earlier case left behind in the process)
+			for i, raw := range hist {
+				var c C
+				if err := json.Unmarshal(raw, &c); err != nil {
+					fmt.Printf("INFRA: cannot load case %d of history %s: %v\n", i, p, err)
+					os.Exit(2)
+				}
+				if v := check(c); v.Err != nil {
+					fmt.Printf("REPLAY-FAIL property=%s at case %d of %d of the history: %v\n", id, i+1, len(hist), v.Err)
+					t.Fatalf("replay failed: %v", v.Err)
+				}
+			}
+			fmt.Printf("REPLAY-PASS property=%s (history of %d cases)\n", id, len(hist))
+			return
+		}
 		var c C
 		if err := loadCase(p, &c); err != nil {
 			fmt.Printf("INFRA: cannot load replay file %s: %v\n", p, err)
@@ -273,6 +328,11 @@ func runPropOpt[C any](t *testing.T, id string, gen func(*rapid.T) C, check func
 	defer rec.flush()
 	os.Remove(failPath(id))
 
+	// history mode (set by the driver when a failing case did not fail again on its own): every case
+	// is appended to a file before it runs, and the first failure ends the process at once
+	histFile := historyFile()
+	logCase := func(c C) { histLog(c) }
+
 	// regression tier: committed corpus
 	files, _ := filepath.Glob(filepath.Join(verifRoot(), "corpus", id, "*.json"))
 	sort.Strings(files)
@@ -288,6 +348,7 @@ func runPropOpt[C any](t *testing.T, id string, gen func(*rapid.T) C, check func
 		if crashy {
 			writeCurrent(id, c)
 		}
+		logCase(c)
 		v := check(c)
 		rec.record(c, v)
 		rec.Replayed++
@@ -306,10 +367,16 @@ func runPropOpt[C any](t *testing.T, id string, gen func(*rapid.T) C, check func
 		if crashy {
 			writeCurrent(id, c)
 		}
+		logCase(c)
 		v := check(c)
 		rec.record(c, v)
 		if v.Err != nil {
 			writeFail(id, c, v.Err)
+			if histFile != nil {
+				fmt.Printf("HISTORY-FAIL property=%s: %v\n", id, v.Err)
+				rec.flush()
+				os.Exit(4)
+			}
 			rt.Fatalf("%v", v.Err)
 		}
 	})
@@ -348,6 +415,11 @@ func hangExit(id string, c interface{}, what string) {
 }
 
 func watchdogLimit() time.Duration {
+	if s := os.Getenv("VERIF_WATCHDOG_S"); s != "" {
+		if n, err := time.ParseDuration(s + "s"); err == nil && n > 0 {
+			return n
+		}
+	}
 	if os.Getenv("VERIF_REPLAY") != "" {
 		return 30 * time.Second
 	}
